@@ -49,42 +49,55 @@ Qed.
 
 (* ------------------------------------------------------------------ handler shape *)
 
-Definition commit (n : note) : seg := match n with Doc _ u v t => Store u v t | Close u => CloseRemove u end.
+(* Faithful: a text that does not parse is published but not stored *)
+Definition untouched (vr : variant) (n : note) : bool :=
+  match vr, n with Faithful, Doc _ _ _ t => negb (tok t) | _, _ => false end.
+Definition commit (vr : variant) (n : note) : seg :=
+  match n with
+  | Doc _ u v t => if untouched vr n then Guard u else Store u v t
+  | Close u => CloseRemove u
+  end.
 Definition final (n : note) : seg := match n with Doc _ u v t => Publish u v t | Close u => ClosePublish u end.
 Definition content (n : note) : option (Z * text) := match n with Doc _ _ v t => Some (v, t) | Close _ => None end.
+Definition cdocs (vr : variant) (n : note) (d : uri -> option (Z * text)) : uri -> option (Z * text) :=
+  if untouched vr n then d else upd d (nuri n) (content n).
 Definition fpub (n : note) : pub := match n with Doc _ u v t => own_pub u v t | Close u => clear_pub u end.
 Definition is_deps (s : seg) : bool := match s with DepsRead | DepsPublish _ => true | _ => false end.
 
 Lemma puri_fpub n : puri (fpub n) = nuri n.
 Proof. destruct n; reflexivity. Qed.
+Lemma cdocs_other vr n d x : x <> nuri n -> cdocs vr n d x = d x.
+Proof. intros H. unfold cdocs. destruct (untouched vr n); [reflexivity|apply upd_other; assumption]. Qed.
+Lemma cdocs_same vr n d : untouched vr n = false -> cdocs vr n d (nuri n) = content n.
+Proof. intros H. unfold cdocs. rewrite H. apply upd_same. Qed.
 
-(* remaining segments of a handler whose note is n and that ends with commit;final *)
-Definition shape (n : note) (l : list seg) : Prop :=
-  l = [] \/ l = [final n] \/ exists pre, forallb is_deps pre = true /\ l = pre ++ [commit n; final n].
+(* remaining segments of a handler whose note is n: it ends with commit;final *)
+Definition shape (vr : variant) (n : note) (l : list seg) : Prop :=
+  l = [] \/ l = [final n] \/ exists pre, forallb is_deps pre = true /\ l = pre ++ [commit vr n; final n].
 
 Lemma forallb_deps_map imps : forallb is_deps (map DepsPublish imps) = true.
 Proof. induction imps; simpl; auto. Qed.
 
-Lemma shape_of_note_repaired n : shape n (of_note Repaired n).
+Lemma of_note_pre vr n : exists pre, forallb is_deps pre = true /\ of_note vr n = pre ++ [commit vr n; final n].
 Proof.
-  right; right. destruct n as [o u v t|u]; simpl.
-  - destruct (tok t).
-    + exists (DepsRead :: map DepsPublish (timports t)). split; [simpl; apply forallb_deps_map | reflexivity].
-    + exists []. split; reflexivity.
+  destruct n as [o u v t|u]; simpl.
+  - destruct (tok t) eqn:T.
+    + exists (DepsRead :: map DepsPublish (timports t)). split; [simpl; apply forallb_deps_map|].
+      destruct vr; simpl; rewrite ?T; reflexivity.
+    + exists []. split; [reflexivity|]. destruct vr; simpl; rewrite ?T; reflexivity.
   - exists []. split; reflexivity.
 Qed.
 
-Lemma commit_not_deps n : is_deps (commit n) = false.
-Proof. destruct n; reflexivity. Qed.
-Lemma final_not_deps n : is_deps (final n) = false.
-Proof. destruct n; reflexivity. Qed.
-Lemma commit_neq_final n : commit n <> final n.
-Proof. destruct n; discriminate. Qed.
+Lemma shape_of_note vr n : shape vr n (of_note vr n).
+Proof. right; right. apply of_note_pre. Qed.
 
-Lemma shape_cons n s rest : shape n (s :: rest) ->
+Lemma commit_neq_final vr n : commit vr n <> final n.
+Proof. destruct n as [o u v t|u]; simpl; [destruct (untouched vr (Doc o u v t))|]; discriminate. Qed.
+
+Lemma shape_cons vr n s rest : shape vr n (s :: rest) ->
   (s = final n /\ rest = []) \/
-  (s = commit n /\ rest = [final n]) \/
-  (is_deps s = true /\ exists pre, forallb is_deps pre = true /\ rest = pre ++ [commit n; final n]).
+  (s = commit vr n /\ rest = [final n]) \/
+  (is_deps s = true /\ exists pre, forallb is_deps pre = true /\ rest = pre ++ [commit vr n; final n]).
 Proof.
   intros [H|[H|[pre [Hp H]]]]; [discriminate| inversion H; auto |].
   destruct pre as [|p pre]; simpl in *.
@@ -92,18 +105,16 @@ Proof.
   - inversion H; subst. apply andb_prop in Hp as [Hp1 Hp2]. right; right. split; [assumption|]. exists pre; auto.
 Qed.
 
-Lemma shape_pre_nonnil pre n : pre ++ [commit n; final n] <> [].
+Lemma shape_pre_nonnil (pre : list seg) a b : pre ++ [a; b] <> [].
 Proof. destruct pre; discriminate. Qed.
-Lemma shape_pre_not_final pre n : pre ++ [commit n; final n] <> [final n].
-Proof.
-  destruct pre as [|p [|q pre]]; simpl; intros H; inversion H.
-Qed.
+Lemma shape_pre_not_final (pre : list seg) a b c : pre ++ [a; b] <> [c].
+Proof. destruct pre as [|p [|q pre]]; discriminate. Qed.
 
 (* ------------------------------------------------------------------ decomposing a step *)
 
 Lemma step_cases vr h st k st' : step vr h st k = Some st' ->
   (k = started st /\ exists n, nth_error h k = Some n /\ st' = start vr st k n) \/
-  ((k < started st)%nat /\ exists s rest, segs st k = s :: rest /\ exec vr st k s rest = Some st').
+  ((k < started st)%nat /\ exists s rest, segs st k = s :: rest /\ exec st k s rest = Some st').
 Proof.
   unfold step. destruct (Nat.ltb k (started st)) eqn:L.
   - apply Nat.ltb_lt in L. destruct (segs st k) as [|s rest] eqn:E; [discriminate|].
